@@ -46,7 +46,7 @@ def one(seed):
     json.dump(meta, open(os.path.join(sdir, "meta.json"), "w"), indent=1)
     return seed, meta["confirmed"], meta.get("patch_applies"), meta.get("test_suite_with_change", {}).get("tail"), meta.get("demo_with_change", {}).get("exit"), rc0 if "demo_without_change" in meta else None
 
-seeds = sys.argv[1:] or sorted(x for x in os.listdir(os.path.join(HERE, "seeded")) if os.path.isdir(os.path.join(HERE, "seeded", x)))
+seeds = sys.argv[1:] or sorted(x for x in os.listdir(os.path.join(HERE, "seeded")) if os.path.isdir(os.path.join(HERE, "seeded", x)) and not x.startswith("_"))
 with cf.ThreadPoolExecutor(4) as ex:
     for r in ex.map(one, seeds):
         print(*r, flush=True)
